@@ -48,9 +48,13 @@ func key(n *net.IPNet) string {
 	return fmt.Sprintf("%s/%d", ip.Mask(m).String(), ones)
 }
 
-var ranges = []string{"0.0.0.0/0", "128.0.0.0/1", "10.0.0.0/8", "10.1.2.3/8", "10.128.0.0/9", "10.0.0.1/32", "255.255.255.255/32"}
+// 0.0.0.0/1 and 0.1.2.3/8: live ranges whose masked network address is zero (they must not be mistaken for removed slots)
+var ranges = []string{"0.0.0.0/0", "128.0.0.0/1", "0.0.0.0/1", "10.0.0.0/8", "10.1.2.3/8", "10.128.0.0/9", "10.0.0.1/32", "255.255.255.255/32", "0.1.2.3/8"}
 
 func alphabet() []opT {
+	if !vcommon.Thorough() {
+		ranges = ranges[:len(ranges)-1] // quick: 8 ranges (0.1.2.3/8 only in thorough)
+	}
 	var ops []opT
 	for _, add := range []bool{true, false} {
 		verb := "Remove"
@@ -197,7 +201,7 @@ func main() {
 	var run func(name string, newf func() *sys, depth int)
 	run = func(name string, newf func() *sys, depth int) {
 		r := vstate.Explore(vstate.Config[*sys]{Name: name, NOps: len(ops), OpName: opName, New: newf, Apply: apply(ops),
-			Canon: func(s *sys) string { return vstate.Dump(s.f) + "|" + refKey(s) }, Check: check, MaxDepth: depth, Deadline: vcommon.Deadline()})
+			Canon: func(s *sys) string { return vstate.Dump(s.f) + "|" + refKey(s) }, Check: check, MaxDepth: depth, Deadline: vcommon.Deadline(), Workers: vcommon.NProc()})
 		p.Results = append(p.Results, r)
 		fmt.Println(r)
 		for _, f := range r.Failures {
